@@ -192,7 +192,7 @@ pub fn run(ctx: &mut Ctx) {
     for case in ctx.my_cases(total) {
         let mut rng = ctx.rng(case);
         let base = &corpus[(case as usize * 7919) % corpus.len()];
-        let kind = rng.below(12);
+        let kind = rng.below(13);
         let (input, label): (String, String) = match kind {
             // directed deep-nesting witnesses, one per recursion family
             _ if case < 9 => nest_of(case, 20_000),
@@ -250,6 +250,22 @@ pub fn run(ctx: &mut Ctx) {
                     c.insert(p, rng.pick(&UNI).to_string());
                 }
                 (c.concat(), "unicode-inject".into())
+            }
+            11 => {
+                // a long token made of multi-byte characters (string, delimited or bare identifier)
+                // dropped at a random token boundary: exercises error-message construction
+                let ch = *rng.pick(&["é", "日", "😀", "ß", "\u{301}"]);
+                let body = format!("{}{}", "a".repeat(rng.usize(4)), ch.repeat(rng.range(1, 120) as usize));
+                let tok = match rng.below(4) {
+                    0 => format!("'{}'", body),
+                    1 => format!("\"{}\"", body),
+                    2 => format!("`{}`", body),
+                    _ => body,
+                };
+                let mut t = tokens(base);
+                let p = rng.usize(t.len() + 1);
+                t.insert(p, format!(" {} ", tok));
+                (t.concat(), "long-unicode-token".into())
             }
             _ => {
                 // splice two corpus statements at random token boundaries
